@@ -396,7 +396,9 @@ REG.add(Contract(f"{PP}.parse", module=M_DP, kind="method", view="string", param
                  ensures=["parse_ok(result, puml_decl_tokens(puml_inner(puml_text(file_path))), puml_dep_tokens(puml_inner(puml_text(file_path))))"],
                  locals=dict(content="Str", relevant_content="Str", modules="Set[PumlModule]", dependencies="Dict[Str,Set[Str]]"),
                  note="pure: within one interpreter run the result is a function of the file (with two declarations of ONE alias for different names the choice depends on the hash seed: reported)",
-                 properties=["C06", "C13", "C07"]))
+                 impl_of="DiagramParser.parse", properties=["C06", "C13", "C07"]))
+REG.add(Contract("DiagramParser.parse", status="abstract", kind="method", params=dict(self="Opaque[DiagramParser]", file_path="Opaque[Path]"), returns=PD,
+                 note="abstract base (body: pass): a diagram parser maps a file to components and dependencies"))
 
 # ---------------------------------------------------------------- C06: per-line language facts about the regexes the parser builds (regex as data)
 # On every run the REAL functions are executed once on the empty text with re.compile intercepted (child interpreter, PYTHONPATH = the source under
